@@ -19,7 +19,7 @@ def showTy : Ty → String
   | .agg k b => kindLetter k ++ showTy b
 
 def parseTyChars : List Char → Option Ty
-  | [d] => if d.isDigit && d.toNat - '0'.toNat < 3 then some (.simple (d.toNat - '0'.toNat)) else none
+  | [d] => if d.isDigit && d.toNat - '0'.toNat < 5 then some (.simple (d.toNat - '0'.toNat)) else none
   | k :: rest =>
     match k, parseTyChars rest with
     | 'A', some b => some (.agg .array b) | 'L', some b => some (.agg .list b)
